@@ -271,8 +271,23 @@ def render_call(ctor, kwargs):
     return "%s(%s)\n" % (ctor, ", ".join("%s=%r" % kv for kv in kwargs.items()))
 
 
+GROUP_SIGNATURE = ("name", "run", "experiments", "chain_experiments", "deps")   # the documented order of the parameters
+
+
+def renders_positionally(g):
+    """run_experiment_group is a plain Python function with a documented signature, so calling it with positional
+    arguments is legal.  A group whose written parameters are a prefix of the documented order, with at least the fourth
+    one present, is written positionally in (a deterministic) half of the cases."""
+    import zlib
+
+    keys = tuple(g.keys())
+    return len(keys) >= 4 and keys == GROUP_SIGNATURE[:len(keys)] and zlib.crc32(repr(sorted(map(str, g.items()))).encode()) % 2 == 0
+
+
 def render_group(g):
     """g: dict with keys name, run, and optionally experiments, chain_experiments, deps (present = written)"""
+    if renders_positionally(g):
+        return "run_experiment_group(%s)\n" % ", ".join("%r" % (v,) for v in g.values())
     return render_call("run_experiment_group", g)
 
 
